@@ -429,13 +429,34 @@ Definition m_is_listen (o : mout) : bool := match o with MListen _ _ => true | _
 Definition m_heard (types : list N) (o : mout) : bool :=
   match o with MListen t _ => memN t types | _ => false end.
 
+(* The run lets the event loop settle after every operation of the script: at those points of the
+   history (given as prefix lengths) no request may be runnable - a request whose answer has been
+   stored must already have resumed.  (Without this a lost wake-up would pass as "the timeout won".) *)
+Definition settled_at {St Ev Out} (step : St -> Ev -> St * list Out) (s0 : St) (runnable : St -> bool)
+           (h : list Ev) (points : list nat) : bool :=
+  forallb (fun n => negb (runnable (final step s0 (firstn n h)))) points.
+
+Definition m_runnable (s : mst) : bool :=
+  existsb (fun e => match snd (snd e) with 0 => false | S _ => true end) (m_wait s).
+Definition c_runnable (s : cst) : bool :=
+  existsb (fun e => match snd e with Some _ => true | None => false end) (c_wait s).
+Definition h_runnable (s : hst) : bool :=
+  existsb (fun e => match snd (snd e) with Some _ => true | None => false end) (h_wait s).
+Definition r_runnable (s : rst) : bool :=
+  h_runnable (r_http s)
+  || existsb (fun e => match aget Nat.eqb (fst e) (r_ph1 s), aget Nat.eqb (snd e) (r_reqs s) with
+                       | None, Some (_, Some _) => true
+                       | _, _ => false
+                       end) (r_ph2 s).
+
 (* history, types that have a listener, outcomes of the requests in completion order,
-   listener calls in call order; every request must have finished *)
-Definition mrp_check (c : list mev * list N * list mout * list mout) : bool :=
-  let '(h, types, outcomes, heard) := c in
+   listener calls in call order, settle points; every request must have finished *)
+Definition mrp_check (c : list mev * list N * list mout * list mout * list nat) : bool :=
+  let '(h, types, outcomes, heard, pts) := c in
   let o := outs mstep m_init h in
   list_beq mout_eqb (filter (fun x => negb (m_is_listen x)) o) outcomes
   && list_beq mout_eqb (filter (m_heard types) o) heard
+  && settled_at mstep m_init m_runnable h pts
   && match m_wait (final mstep m_init h) with [] => true | _ => false end.
 
 Definition cout_eqb (a b : cout) : bool :=
@@ -447,11 +468,12 @@ Definition cout_eqb (a b : cout) : bool :=
   end.
 Definition c_is_listen (o : cout) : bool := match o with CListen _ => true | _ => false end.
 
-Definition comp_check (c : N * list cev * list cout * list cout) : bool :=
-  let '(x0, h, outcomes, heard) := c in
+Definition comp_check (c : N * list cev * list cout * list cout * list nat) : bool :=
+  let '(x0, h, outcomes, heard, pts) := c in
   let o := outs cstep (c_init x0) h in
   list_beq cout_eqb (filter (fun x => negb (c_is_listen x)) o) outcomes
   && list_beq cout_eqb (filter c_is_listen o) heard
+  && settled_at cstep (c_init x0) c_runnable h pts
   && match c_wait (final cstep (c_init x0) h) with [] => true | _ => false end.
 
 Definition hresp_eqb (a b : hresp) : bool :=
@@ -464,15 +486,17 @@ Definition hout_eqb (a b : hout) : bool :=
   | _, _ => false
   end.
 
-Definition http_check (c : list hev * list hout) : bool :=
-  let '(h, outcomes) := c in
+Definition http_check (c : list hev * list hout * list nat) : bool :=
+  let '(h, outcomes, pts) := c in
   list_beq hout_eqb (outs hstep h_init h) outcomes
+  && settled_at hstep h_init h_runnable h pts
   && match h_wait (final hstep h_init h) with [] => true | _ => false end.
 
-Definition rtsp_check (c : list rtev * list hout) : bool :=
-  let '(h, outcomes) := c in
+Definition rtsp_check (c : list rtev * list hout * list nat) : bool :=
+  let '(h, outcomes, pts) := c in
   let f := final rstep r_init h in
   list_beq hout_eqb (outs rstep r_init h) outcomes
+  && settled_at rstep r_init r_runnable h pts
   && match r_ph1 f, r_ph2 f with [], [] => true | _, _ => false end.
 
 (* listeners of the type with their filter verdicts, listeners that were called (in call order) *)
